@@ -15,7 +15,7 @@ EXPLANATION = (
     "strategies only on its false edge; (INVERT) both delivery routines obtain matches only through "
     "MultiLine::find and advance through MultiLine::advance; plus the stop/finish discipline of C16 restricted "
     "to the MultiLine functions. Leftmost/non-overlapping enumeration, merging arithmetic and `locate` are "
-    "value-level and not decided.")
+    "value-level and not decided. (ADVANCE) after a match the scan resumes exactly at its end, one byte further only after an empty match that is not at the end of the buffer, and both delivery routines advance with the match they found.")
 NOT_DECIDED = [
     "leftmost / non-overlapping enumeration, the +1 after an empty match",
     "the merge condition last_match.end() >= line.start() and lines::locate arithmetic",
